@@ -34,7 +34,7 @@ LIMIT = MAX_TRACEBACK_DEPTH + 1  # number of real frames kept ("the fixed depth 
 FAULT = os.environ.get("XH_FAULT", "call")
 BASE = os.environ.get("XH_BASE", "fresh")
 FAULTS = ("call", "gpos", "gkw", "gnest", "gexp", "unpack", "addw", "addr", "srcr", "addm", "srcm")
-DMAX = 6
+DMAX = int(os.environ.get("XH_DMAX", "6"))  # deepest nesting of helper frames around the creating function
 HEADER = "Symbolic traceback (most recent call last):"
 
 
@@ -204,11 +204,13 @@ def _mk_fn(tag, fault, good, bad):
     return f
 
 
-def make_world(fault, p1, t0, t1, store_cls=None):
+def make_world(fault, p1, t0, t1, stores=None):
     R = Rec()
-    mk = store_cls or FStore
-    R.S0 = mk(0, True, t0, "srcval", {"srcr": "r", "srcm": "m"}.get(fault))
-    R.S1 = mk(1, p1, t1, ("a", "srcval"), {"addw": "w", "addr": "r", "addm": "m"}.get(fault))
+    if stores is None:
+        R.S0 = FStore(0, True, t0, "srcval", {"srcr": "r", "srcm": "m"}.get(fault))
+        R.S1 = FStore(1, p1, t1, ("a", "srcval"), {"addw": "w", "addr": "r", "addm": "m"}.get(fault))
+    else:
+        R.S0, R.S1 = stores
     def user_a(x):
         if fault == "call":
             raise Boom("a")
@@ -241,11 +243,11 @@ def expected_failure(fault, R, stale1):
     if fault == "unpack":  # the plan.unpack line
         return R.s_unp, has_fn(_builtins.unpack), ValueError
     if fault == "addw":  # failed store write: the registry.add line
-        return (R.s_add, has_fn(FStore.write), ("w", 1)) if stale1 else None
+        return (R.s_add, has_fn(type(R.S1).write), ("w", 1)) if stale1 else None
     if fault == "addr":  # failed read-back (after a rebuild) or read (value up to date): the registry.add line
-        return R.s_add, has_fn(FStore.read), ("r", 1)
+        return R.s_add, has_fn(type(R.S1).read), ("r", 1)
     if fault == "srcr":  # failed source read: the registry.source line
-        return (R.s_src, has_fn(FStore.read), ("r", 0)) if stale1 else None
+        return (R.s_src, has_fn(type(R.S0).read), ("r", 0)) if stale1 else None
     if fault == "addm":  # failed modified-time query: the line that created the examined node (the plan.call line)
         return R.s_a, is_node(R.a), ("m", 1)
     if fault == "srcm":  # ... on a source: the node was created by the registry.source line
@@ -266,7 +268,7 @@ def check_error(e, exp):
     if not call_ok(e.call):
         return False
     if isinstance(cause, type):
-        if type(e.__cause__) is not cause:
+        if not isinstance(e.__cause__, cause):
             return False
     elif not (type(e.__cause__) is Boom and e.__cause__.args[0] == cause):
         return False
@@ -290,7 +292,7 @@ def check_error(e, exp):
 
 def c19_attr(d: int, p1: bool, t0: int, t1: int) -> bool:
     """
-    pre: 0 <= d <= 6
+    pre: 0 <= d <= DMAX
     pre: t0 < 1000000000 and t1 < 1000000000
     post: _
     """
@@ -365,29 +367,142 @@ def c19_render_pos(ip: int, trunc: bool, la: int) -> bool:
     return ok()
 
 
-def c19_render_text(k: int, rel: int, trunc: bool, na: str, pa: str, sa: str, la: int) -> bool:
-    """
-    Chain of XH_N frames; frame k has a symbolic name / path / line; an IPython frame (symbolic text around the
-    '/IPython/core/' marker) sits at position k + rel (rel == 2: nowhere; rel == 0: frame k itself).
+REL = int(os.environ.get("XH_REL", "2"))
+LSYM = os.environ.get("XH_LSYM") == "1"
 
-    pre: 0 <= k <= 5
-    pre: -1 <= rel <= 2
-    pre: len(na) <= 2 and len(pa) <= 2 and len(sa) <= 2
+
+RK = int(os.environ.get("XH_K", "0"))
+
+
+def c19_render_text(trunc: bool, na: str, pa: str, la: int) -> bool:
+    """
+    Chain of XH_N frames; frame k = XH_K has a symbolic name / path (/ line when XH_LSYM=1); an IPython frame (symbolic text
+    around the '/IPython/core/' marker) sits at position k + XH_REL (XH_REL == 2: nowhere; 0: frame k itself).
+
+    pre: len(na) <= 2 and len(pa) <= 2
     pre: 0 <= la <= 3
     post: _
     """
     begin()
+    k = RK
     if k >= RN:
         return True
-    ip = -1 if rel == 2 else k + rel
+    ip = -1 if REL == 2 else k + REL
+    if REL != 2 and not (0 <= ip < RN):
+        return True  # no such frame in this chain: covered by XH_REL=2
     frames = []
     for i in range(RN):
         name, path, line = C_NAMES[i], C_PATHS[i], 10 + i
         if i == k:
-            name, path, line = na, pa, la
+            name, path, line = na, pa, (la if LSYM else 42)
         if i == ip:
-            path = (pa if i == k else "/x") + "/IPython/core/" + sa
+            path = (pa if i == k else "/x" + pa) + "/IPython/core/" + na
         frames.append((name, path, line))
     if not _render_ok(frames, trunc):
         return False
     return ok()
+
+
+# ------------------------------------------------------------------------------------------ stub / oracle validation
+def _outcome(fault, base, dc, p1, t0, t1, stores=None, causes=None):
+    """One concrete run: (verdict of the oracle, signature of the CallError) -- used only by validate()."""
+    R = make_world(fault, p1, t0, t1, stores)
+    if base == "fresh":
+        _build_fresh(dc, R)
+    else:
+        _site(R) if dc == 0 else _nest(dc, R)
+    stale1 = (not p1) or t0 > t1
+    exp = expected_failure(fault, R, stale1)
+    if exp is not None and causes is not None:
+        exp = (exp[0], exp[1], causes)
+    try:
+        uberjob.run(R.plan, registry=R.reg, output=R.out, progress=None, max_workers=2)
+    except uberjob.CallError as e:
+        fr, tr, _wf = _observe(e.call.stack_frame)
+        sig = (getattr(e.call.fn, "__name__", "?"), tuple(fr), tr, str(e).split("\n", 1)[1], type(e.__cause__).__name__)
+        return (exp is not None and check_error(e, exp)), sig
+    return exp is None, None
+
+
+def validate():
+    """Concrete validation of every stub / oracle of this module against the real thing (no solver involved)."""
+    import datetime as dt
+    import tempfile
+    import traceback as pytb
+
+    import uberjob._execution.run_physical as rp
+    import uberjob._transformations.caching as caching
+    from uberjob._execution.run_function_on_graph import run_function_on_graph as real_engine
+    from uberjob.stores import JsonFileStore
+
+    out = {"snap_vs_traceback": 0, "fresh_depth": 0, "engine_stub_vs_real": 0, "fstore_vs_filestore": 0, "failures": []}
+
+    # (1) _snap (the oracle's frame walk) against CPython's own traceback.extract_stack, at several depths
+    def at(k):
+        if k == 0:
+            a, b = _snap(), pytb.extract_stack()
+            return a, b
+        return at(k - 1)
+
+    for k in (0, 1, 4, 9):
+        a, b = at(k)
+        b = [(f.name, f.filename, f.lineno) for f in reversed(b)]
+        if a != b:
+            out["failures"].append(("snap", k))
+        out["snap_vs_traceback"] += 1
+
+    # (2) the fresh base really is a new stack of the advertised depth
+    for dc in range(0, DMAX + 1):
+        R = make_world("call", True, 1, 2)
+        _build_fresh(dc, R)
+        if not (len(R.s_a) == dc + 2 and len(R.s_src) == dc + 3 and R.s_a[-1][0] == "_fresh_bottom"):
+            out["failures"].append(("fresh", dc))
+        out["fresh_depth"] += 1
+
+    # (3) sequential engine stand-in against the real threaded engine: identical CallError for every fault
+    for fault in FAULTS:
+        for base in ("fresh", "inline"):
+            for dc in (0, 2, 5):
+                for (p1, t0, t1) in ((False, 1, 2), (True, 1, 2), (True, 2, 1)):
+                    res = []
+                    for eng in (W.seq_engine, real_engine):  # both runs are created by the same source line
+                        caching.run_function_on_graph = rp.run_function_on_graph = eng
+                        try:
+                            res.append(_outcome(fault, base, dc, p1, t0, t1))
+                        finally:
+                            W.install_engine()
+                    (v1, s1), (v2, s2) = res
+                    if not (v1 and v2 and s1 == s2):
+                        out["failures"].append(("engine", fault, base, dc, p1, t0, t1, v1, v2))
+                    out["engine_stub_vs_real"] += 1
+
+    # (4) FStore failures against failures of a real file store (JsonFileStore): same attribution
+    with tempfile.TemporaryDirectory() as tmp:
+        def fresh_files(case):
+            d = os.path.join(tmp, case)
+            os.makedirs(d, exist_ok=True)
+            src, dst = os.path.join(d, "src.json"), os.path.join(d, "a.json")
+            with open(src, "w") as f:
+                f.write('"srcval"' if case != "srcr" else "{corrupt")
+            os.utime(src, (1000, 1000))
+            if case == "addw":
+                dst = os.path.join(d, "missing_dir", "a.json")  # write fails: the directory does not exist
+            if case == "addr":
+                with open(dst, "w") as f:
+                    f.write("{corrupt")  # up to date but unreadable
+                os.utime(dst, (2000, 2000))
+            return JsonFileStore(src), JsonFileStore(dst)
+
+        for case, p1, t0, t1 in (("addw", False, 1, 2), ("addr", True, 1, 2), ("srcr", False, 1, 2)):
+            for base in ("fresh", "inline"):
+                for dc in (0, 2, 4):
+                    res = []
+                    for stores in (None, fresh_files(case)):  # both runs are created by the same source line
+                        res.append(_outcome(case, base, dc, p1, t0, t1, stores=stores, causes=Exception if stores else None))
+                    (vf, sf), (vr, sr) = res
+                    same = sf is not None and sr is not None and sf[:3] == sr[:3] and sf[3] == sr[3]
+                    if not (vf and vr and same):
+                        out["failures"].append(("filestore", case, base, dc, vf, vr, sf and sf[0], sr and sr[0]))
+                    out["fstore_vs_filestore"] += 1
+        assert isinstance(JsonFileStore(os.path.join(tmp, "nope")).get_modified_time(), (type(None), dt.datetime))
+    return out
